@@ -124,22 +124,24 @@ def qbuilder_part(c, quick, rnd):
         if tuple(e["h"]) not in seen:
             seen.add(tuple(e["h"]))
             uniq.append(e)
-    jobs, plan = [], []
+    jobs, plan, refids = [], [], {}
     base = {"entry": "xta", "text": QB_XTA, "query_builder": "tiga", "one_builder": True, "clear_errors": True, "timeout": 60}
     for n, e in enumerate(uniq):
         h = e["h"]
-        for rep in range(1 if quick else 2):
-            qs = [rnd.choice(QB_TEXT[k]) for k in h]
-            start = max([i + 1 for i, k in enumerate(h[:-1]) if k == "clear"] or [0])
-            ref = [q for k, q in list(zip(h, qs))[start:-1] if k in QB_DECL] + [qs[-1]]
-            jobs.append(dict(base, id="q%d_%d" % (n, rep), queries=qs))
-            jobs.append(dict(base, id="q%d_%d_ref" % (n, rep), queries=ref))
-            plan.append(("q%d_%d" % (n, rep), e, qs, ref))
+        qs = [rnd.choice(QB_TEXT[k]) for k in h]
+        start = max([i + 1 for i, k in enumerate(h[:-1]) if k == "clear"] or [0])
+        ref = [q for k, q in list(zip(h, qs))[start:-1] if k in QB_DECL] + [qs[-1]]
+        rk = json.dumps(ref)
+        if rk not in refids:              # many histories have the same declarations in force and the same last query: one reference run for all of them
+            refids[rk] = "ref%d" % len(refids)
+            jobs.append(dict(base, id=refids[rk], queries=ref))
+        jobs.append(dict(base, id="q%d" % n, queries=qs))
+        plan.append(("q%d" % n, refids[rk], e, qs, ref))
     res = vf.run_jobs(jobs, c.run_dir, variant="asan", harness="model_run", name="qbuilder")
     drift = 0
-    for jid, e, qs, ref in plan:
+    for jid, rid, e, qs, ref in plan:
         h = e["h"]
-        r, rr = res[jid], res[jid + "_ref"]
+        r, rr = res[jid], res[rid]
         if "queries" not in rr:
             c.finding("c15:builder:%s-after-declarations:crash" % h[-1],
                       "the queries %s handed to one TigaPropertyBuilder end the process (%s)" % (json.dumps(ref), rr.get("outcome")),
